@@ -307,6 +307,37 @@ func oracleC01(r *Result) {
 		if len(callsOf(t, "AuthRequestByID")) == 0 {
 			state = "nolookup"
 		}
+		liveUserOK := true
+		if c := firstCall(t, "AuthRequestByID"); w.cfg.LiveRecords && c != nil && snap != nil && snap.Idx < len(w.sessions) {
+			// live records: "reports that its user has completed authentication" can become true (or false) while the request is
+			// being served. Success is legitimate iff at some instant between the lookup and the reply the stored request was done —
+			// and done for the very user the assertion describes.
+			described := ""
+			if uc := firstCall(t, "SetUserinfoWithUserID"); uc != nil && len(uc.Args) > 1 {
+				described = uc.Args[1]
+			}
+			everDone, doneAsDescribed := false, false
+			states := w.sessions[snap.Idx].States
+			for i, st := range states {
+				endsBeforeLookup := i+1 < len(states) && states[i+1].Seq <= c.Seq
+				if endsBeforeLookup || st.Seq > t.SeqReturn {
+					continue
+				}
+				if st.Done {
+					everDone = true
+					if st.User == described {
+						doneAsDescribed = true
+					}
+				}
+			}
+			if everDone {
+				state = "done"
+			} else {
+				state = "pending"
+			}
+			liveUserOK = doneAsDescribed || described == ""
+			w.probe("live_record_interval_evaluated")
+		}
 		sf := storageFaults(t)
 		if c := firstCall(t, "SetUserinfoWithUserID"); c != nil && state != "done" {
 			w.probe("userinfo_fetched_without_done")
@@ -325,6 +356,10 @@ func oracleC01(r *Result) {
 				r.violate("C01.a success-for-another-request", "C01:callback:success:looked-up-id-differs-from-named-id",
 					"status Success only when the stored request named by the caller exists and reports Done",
 					fmt.Sprintf("caller named %q, the handler looked up %q: %s", t.Sent.CallbackIDs, c.Args[0], replySummary(t)), t.ID)
+			} else if !liveUserOK {
+				r.violate("C01.a success-for-a-user-who-never-completed", "C01:callback:success:described-user-never-completed-authentication",
+					"status Success and an assertion about a user only when the stored request reports that this user has completed authentication",
+					fmt.Sprintf("the stored request was never in state done for the user the assertion describes (states %v): %s", w.sessions[snap.Idx].States, replySummary(t)), t.ID)
 			} else if c := firstCall(t, "AuthRequestByID"); c != nil && c.CtxIssuer != t.Sent.IdPIssuer && !isShadowless(t) {
 				r.violate("C01.a success-for-another-tenants-request", "C01:callback:success:request-looked-up-under-another-issuer",
 					"status Success only when the stored request named by the caller exists and reports Done (a caller on one host names that host's request)",
